@@ -186,8 +186,10 @@ where
             if len >= 253 {
                 return Err(PushError::LongName);
             }
-            self.head = Some(len);
+            // Only start the label once it is in the buffer: if appending
+            // fails, there must not be a label without content.
             self._append_slice(&[0, ch])?;
+            self.head = Some(len);
         }
         Ok(())
     }
@@ -238,11 +240,31 @@ where
             if self.len() + slice.len() > 254 {
                 return Err(PushError::LongName);
             }
-            self.head = Some(self.len());
-            self._append_slice(&[0])?;
+            // Append the placeholder for the length octet and the content
+            // in one go and only start the label once they are in the
+            // buffer: if appending fails, there must not be a label
+            // without content.
+            let head = self.len();
+            self._append_prefixed(0, slice)?;
+            self.head = Some(head);
+            return Ok(());
         }
         self._append_slice(slice)?;
         Ok(())
+    }
+
+    /// Appends `first` followed by `content` in a single step.
+    ///
+    /// The content must not be longer than a label.
+    fn _append_prefixed(
+        &mut self,
+        first: u8,
+        content: &[u8],
+    ) -> Result<(), PushError> {
+        let mut buf = [0u8; Label::MAX_LEN + 1];
+        buf[0] = first;
+        buf[1..content.len() + 1].copy_from_slice(content);
+        self._append_slice(&buf[..content.len() + 1])
     }
 
     /// Ends the current label.
@@ -359,8 +381,9 @@ where
             return Err(PushNameError::LongName);
         }
         for label in name.iter_labels() {
-            label
-                .compose(&mut self.builder)
+            // Append each label in one go so that a failed append cannot
+            // leave half a label behind.
+            self._append_prefixed(label.len() as u8, label.as_slice())
                 .map_err(|_| PushNameError::ShortBuf)?;
         }
         Ok(())
